@@ -45,6 +45,9 @@ DATA = {
     2: [np.array([[x, y] for x, y in [(0.1, 0.3), (0.3, 0.9), (0.5, 0.5), (0.77, 0.1), (0.9, 0.77), (0.2, 0.6), (0.6, 0.2), (0.85, 0.4),
                                       (0.4, 0.85), (0.05, 0.05), (0.95, 0.95), (0.7, 0.7), (0.33, 0.15), (0.15, 0.66)]])],
 }
+DATA[3] = [np.array([[x, y, z] for x, y, z in [(0.1, 0.3, 0.7), (0.3, 0.9, 0.2), (0.5, 0.5, 0.5), (0.77, 0.1, 0.9), (0.9, 0.77, 0.3), (0.2, 0.6, 0.1),
+                                             (0.6, 0.2, 0.8), (0.85, 0.4, 0.6), (0.4, 0.85, 0.45), (0.05, 0.05, 0.95), (0.95, 0.95, 0.05),
+                                             (0.7, 0.7, 0.7), (0.33, 0.15, 0.55), (0.15, 0.66, 0.35)]])]
 TARGETS = {"smooth": lambda X: np.sin(3 * X[:, 0]) + (X[:, -1] ** 2), "rough": lambda X: np.where(X[:, 0] > 0.5, 1.0, -0.5) + 0.1 * X[:, -1]}
 
 
@@ -280,14 +283,16 @@ def cases(tier):
     # natural-size data (both sides of any size-dependent chunking: 2^22 entries of a design matrix are reached from ~20 000 points on)
     for samples, lam in ((33000, 0.0), (33000, 0.01)) + (() if q else ((60000, 0.0), (9000, 0.0))):
         out.append({"config": {"kind": "large", "samples": samples, "targets": "smooth", "lambda": lam, "matrix": "I", "lmin": 1, "lmax": 6}})
-    for d in (1, 2):
+    for d in (1, 2, 3):
         for targets in TARGETS:
             for lam in (0.0, 0.1, 1e-3):
                 for matrix in ("C", "I"):
                     if lam == 0.0 and matrix == "I":
                         continue
-                    for lmin, lmax in ((1, 1), (1, 2), (1, 3), (2, 3)) + (((1, 4), (2, 4)) if (d == 1 or not q) else ()):
+                    for lmin, lmax in (((1, 1), (1, 2), (1, 3), (2, 3)) + (((1, 4), (2, 4)) if (d == 1 or not q) else ())) if d < 3 else ((1, 1), (1, 2), (2, 2)):
                         out.append({"config": {"kind": "train", "d": d, "targets": targets, "lambda": lam, "matrix": matrix, "lmin": lmin, "lmax": lmax}})
+            if d > 2:
+                continue              # d = 3: standard training only
             for lam, matrix in ((0.0, "C"), (0.1, "I"), (0.1, "C")):
                 for trainings in ([[0.2, 1, 3], [0.4, 1, 4]], [[0.2, 1, 2], [0.2, 1, 3]], [[0.4, 2, 3], [0.2, 1, 3]], [[0.2, 1, 3], [0.2, 1, 3]]):
                     out.append({"config": {"kind": "retrain", "d": d, "targets": targets, "lambda": lam, "matrix": matrix, "trainings": trainings}})
